@@ -335,3 +335,16 @@ PLAN["C19"]["standins"] = PLAN["C19"]["standins"] + [{"file": "standins/loaders.
 # C11 "HTTP/2 extended CONNECT with version 13": the choice of the stream class on HTTP/2
 PLAN["C11"]["units"] = PLAN["C11"]["units"] + [HP + "_create_stream"]
 PLAN["C11"]["trusted_base"] = PLAN["C11"]["trusted_base"] + LIB_H2
+# the constructor of WSStream: base case of the class invariants, the configured message-size limit
+for _p in ("C10", "C11", "C03"):
+    PLAN[_p]["units"] = PLAN[_p]["units"] + [WSU + "__init__"]
+PLAN["C03"]["units"] = PLAN["C03"]["units"] + [HS + "__init__"]
+# constructors of the two servers and the rest of the two TaskGroup classes (C16 same interface;
+# C07 one timer per connection / leaving the group joins its tasks; C08 a send lock per connection;
+# C14 the lifespan state a connection copies is the one the worker handed over)
+_TG_REST = [tg + "TaskGroup." + m for tg in (ATG, TTG) for m in ("__init__", "spawn", "__aenter__", "__aexit__")]
+_SRV_INIT = [ATS + "__init__", TTS + "__init__"]
+PLAN["C16"]["units"] = PLAN["C16"]["units"] + _TG_REST + _SRV_INIT
+PLAN["C07"]["units"] = PLAN["C07"]["units"] + [u for u in _TG_REST if u.endswith(("spawn", "__aexit__"))] + _SRV_INIT
+PLAN["C08"]["units"] = PLAN["C08"]["units"] + _SRV_INIT
+PLAN["C14"]["units"] = PLAN["C14"]["units"] + _SRV_INIT
